@@ -6,6 +6,8 @@ import (
 	"context"
 	"errors"
 	"fmt"
+	"os"
+	"runtime/debug"
 	"sync"
 
 	"github.com/sourcenetwork/corekv"
@@ -55,6 +57,9 @@ func (c *Control) tick(kind string, key []byte) error {
 	}
 	if c.failAt == c.n {
 		c.fired = kind
+		if os.Getenv("VERIF_DEBUG") != "" {
+			fmt.Fprintf(os.Stderr, "FAULT op #%d %s %q\n%s\n", c.n, kind, key, debug.Stack())
+		}
 		return fmt.Errorf("%w: op #%d %s", ErrInjected, c.n, kind)
 	}
 	return nil
